@@ -17,6 +17,8 @@ TRUSTED_BASE = [
     'the harness interns strings injectively (0 = "", 1..4 = the four documented metadata keys as LITERALS, 5 = the wrap text), projects returned errors to trees by type '
     '(pkg/errors withStack layers are transparent) and attributes collaborator calls to messages by goroutine id',
     'the return value of the Router\'s own Ack()/Nack() call is not observable and is projected out of the comparison',
+    'modelled, not verified: the step granularity of Handler/PoisonConc.v (one step per point where another goroutine could interfere; Go memory model); '
+    'PoisonQueue(Retry(h)): C12\'s model Handler/Retry.v is imported as is and evaluated with an environment whose select never takes ctx.Done() (the harness uses a live context and no MaxElapsedTime)',
     'testing, not proof: the thorough tier re-runs the scenarios under the Go race detector (state shared between in-flight messages)',
 ]
 ASSUMPTIONS = [
@@ -116,6 +118,47 @@ def describe(c, strings):
              chain_result=c['res'], consumed_afterwards=snap(c['mf']))
     return d
 
+def retry_case_term(c):
+    script = C.coq_list(['(%s, %s)' % (nlist(a['outs']), C.coq_N(a['err'])) for a in c['script']])
+    return '(K13R %s %s %s %s (RC %s %s %s) %s %s %s %s %d %s %s %s %s)' % (
+        C.coq_bool(c['router']), C.coq_N(c['topic']), filter_term(c['filter']), pp_term(c['pp']),
+        C.coq_N(c['ctx'][0]), C.coq_N(c['ctx'][1]), C.coq_N(c['ctx'][2]), snap_term(c['msg']),
+        C.coq_Z(c['max_retries']), script, PB[c['pb']], c['calls'],
+        C.coq_list([event_term(e) for e in c['trace']]), ST[c['final']], res_term(c['res']), snap_term(c['mf']))
+
+def run_retry(ctx, res, binary):
+    """PoisonQueue(Retry(h)) with the REAL Retry middleware: tie for Handler/PoisonRetry.v"""
+    pid, seed = ctx['pid'], ctx['seed']
+    data, _ = C.run_harness(binary, ['c13retry', '-seed', str(seed)], pid, 'c13retry_%d.json' % seed)
+    strings = data['strings']
+    def describe_r(c):
+        d = dict(c['desc']); d.update(id=c['id'], observed_trace=[e if e[0] != 'ppublish' else ['poison-publish', strings[e[1]], {strings[k]: strings[v] for k, v in e[2]['meta']}] for e in c['trace']],
+                                      chain_result=c['res'], final=ST[c['final']])
+        return d
+    good = []
+    for c in data['cases']:
+        res.evaluations += 1
+        res.count('retry_inside: calls=%d' % c['calls'])
+        res.count('retry_inside: max_retries=%d' % c['max_retries'])
+        bad = [e for e in c['trace'] if event_term(e) is None]
+        if bad or res_term(c['res']) is None or (c['router'] and c['final'] == 0):
+            res.violations.append(dict(signature='C13/retry-inside/observation', what='PoisonQueue(Retry(h)): unexpected or missing observation', case=describe_r(c)))
+            continue
+        good.append(c)
+        res.nontrivial.add(('retry', c['desc']['mode'], c['desc']['filter'], c['max_retries'], c['desc']['script'], c['desc']['poison_publisher'], c['pb']))
+    hdr = 'From WM Require Import Base.Prelude Message.Model Handler.RouterHandle Handler.Poison Corr.C13 Corr.C13Retry.\nFrom Coq Require Import ZArith.\n'
+    for part, chunk in enumerate(C.chunks(good, 400)):
+        r = C.coq_eval(pid, 'rcases_%d_%d' % (seed, part), hdr + 'Definition cases : list c13r_case := %s.\n' % C.coq_list([retry_case_term(c) for c in chunk]),
+                       [('R_mis', 'c13r_mismatches cases'), ('R_vio', 'c13r_violations cases')])
+        for i in r['R_vio']:
+            res.violations.append(dict(signature='C13/retry-inside/monitor', what='PoisonQueue(Retry(h)): observation rejected by the C13 acceptor (poisoned exactly when the last attempt made failed with an accepted error, reason = that error)',
+                                       case=describe_r(chunk[i])))
+        for i in r['R_mis']:
+            res.mismatches.append(dict(kind='Corr.C13Retry.c13r_mismatch (Handler/PoisonRetry.v = poison o Retry.retry vs the real PoisonQueue(Retry(h)))',
+                                       explained_by_violation=i in r['R_vio'], case=describe_r(chunk[i])))
+    picks = [c for c in good if c['calls'] >= 3 and any(e[0] == 'ppublish' for e in c['trace'])]
+    if picks: res.sample(describe_r(picks[0]), limit=5)
+
 def run(ctx):
     pid, tier, seed = ctx['pid'], ctx['tier'], ctx['seed']
     res = C.Result()
@@ -127,7 +170,8 @@ def run(ctx):
     now = C.anchor_hashes(sorted(REVIEWED))
     res.extra['anchor_drift'] = {f: dict(reviewed=REVIEWED[f], now=now.get(f), drifted=now.get(f) != REVIEWED[f]) for f in sorted(REVIEWED)}
     res.extra['rendezvous_timeouts'] = data['timeouts']
-    res.extra['forced_overlaps'] = dict(batches_with_2_to_8_in_flight=data['batches'], all_parked_or_finished_together=data['batches_met'])
+    res.extra['forced_overlaps'] = dict(batches_with_2_to_8_in_flight=data['batches'], all_parked_or_finished_together=data['batches_met'],
+                                        parked_at_hook_poison_default_filter=data.get('hook_parked'), hook_parks_timed_out=data.get('hook_timed_out'))
     for s in data['stray'] or []:
         res.violations.append(dict(signature='C13/stray-call', what='a collaborator (%s) was called outside the goroutine that handles the message' % s, case=dict(where=s)))
     good = []
@@ -177,6 +221,7 @@ def run(ctx):
         for i in r['R_mis']:
             res.mismatches.append(dict(kind='Corr.C13.c13_mismatch (Handler/Poison.v poison/in_router vs middleware/poison.go inside message.Router)',
                                        explained_by_violation=i in r['R_vio'], case=describe(chunk[i], strings)))
+    run_retry(ctx, res, binary)
     # the constructors
     terms = ['c13_ctor_mismatch %s %s %s' % (C.coq_N(k['topic']), C.coq_bool(k['with_filter']), C.coq_bool(k['got_mw'])) for k in data['ctors']]
     r = C.coq_eval(pid, 'ctors_%d' % seed, HEADER, [('R_ctor', C.coq_list(terms))])
@@ -206,7 +251,7 @@ def run(ctx):
                 'the middleware called directly around three handlers}: every error shape (sentinels, fmt %w, pkg/errors.Wrap, nested both ways, multierror with 0/1/2 elements, wrapped multierror) '
                 'x poison publisher {accept, error, panic} (+ nil publisher groups), successes with outputs incl. the consumed object itself, panics, nil-map and already-poisoned metadata; '
                 'handler pre-settle, metadata/payload/context changes by the handler, the state of the message context {live, already cancelled / past its deadline at delivery, cancelled by the handler, cancelled or timed out from outside while the handler runs} (enumerated x poison publisher behaviour with a failing handler, and drawn elsewhere), payloads, Router publisher behaviour and poison topic drawn from the seed; plus random groups; '
-                '1..8 messages in flight with a rendezvous at the first collaborator call; non-trivial = anything but a plain untouched success; distinct by script.')
+                '1..8 messages in flight with a rendezvous at the first collaborator call; plus 800 sequential cases of PoisonQueue(Retry(h)) with the real Retry middleware (MaxRetries 0..3, 0..4 failing attempts with different errors then success / failure for ever), directly and inside a Router; non-trivial = anything but a plain untouched success; distinct by script.')
     return res
 
 def search(ctx, res):
